@@ -561,7 +561,7 @@ def dump_one(f: TextIO, data: IOData) -> None:
             shells.append(Shell(shell.icenter, [angmom], [kind], [exponent], [[coeff]]))
     # make a new instance of MolecularBasis with de-contracted basis shells; ideally for WFN we
     # want the primitive basis set, but IOData only supports shells.
-    obasis = MolecularBasis(shells, data.obasis.conventions, data.obasis.primitive_normalization)
+    obasis = MolecularBasis(shells, CONVENTIONS, data.obasis.primitive_normalization)
     # expand mo.coeffs in the new basis by repeating de-contracted basis coefficients
     permutation, signs = convert_conventions(data.obasis, CONVENTIONS)
     raw_coeffs = data.mo.coeffs[permutation] * signs.reshape(-1, 1)
